@@ -75,7 +75,7 @@ K("c10_total_read_string", "rdb", ["C10", "C06"], tier="quick", timeout=900,
   desc="read_string/read_length on arbitrary bytes, every prefix length: Ok(v) => header + exactly v.len() payload bytes consumed and returned verbatim; Err otherwise; no panic",
   encodes=["RdbReader::read_string", "RdbReader::read_length", "RdbReader::read_u32_be", "RdbReader::read_byte"],
   bounds="7 symbolic bytes, symbolic prefix length n <= 7; unwind 10", stubs=FMT + RX + ALLOCW, assumptions=RDB_IO, native_replay=False)
-K("c10_total_string", "rdb", ["C10", "C06"], tier="quick", timeout=1200,
+K("c10_total_string", "rdb", ["C10", "C06"], tier="thorough", timeout=1200,
   desc="loader totality for value type 0 (string) with the REAL read_string: arbitrary bytes, every prefix length: Ok or Err, no panic / overflow / out-of-bounds",
   encodes=["RdbReader::read_key_value_with_type", "RdbReader::read_string", "RdbReader::read_length"],
   bounds="6 symbolic bytes, symbolic prefix length n <= 6, engine call failing at call 1..3 or never; unwind 10",
